@@ -185,6 +185,12 @@ func (cc *ClientConn) SendRaw(b []byte) error {
 	return wsutil.WriteClientText(cc.c, b)
 }
 
+// SendPing sends a websocket ping frame (the server's websocket layer answers it with a pong on its own).
+func (cc *ClientConn) SendPing() error {
+	cc.c.SetWriteDeadline(time.Now().Add(3 * time.Second))
+	return ws.WriteFrame(cc.c, ws.MaskFrameInPlace(ws.NewPingFrame([]byte("p"))))
+}
+
 // SendClose sends a websocket close frame (what a browser does when a page goes away) and leaves the connection open.
 func (cc *ClientConn) SendClose() error {
 	cc.c.SetWriteDeadline(time.Now().Add(3 * time.Second))
